@@ -1,7 +1,10 @@
 /- Driver/C11.lean — line-protocol driver for the C11 model (see Base/Proto.lean).
 
-   {"op":"world","socks":[…],"procs":[[pid, null | [[fd, {"s":inode} | {"o":hex} | null]…]]…],
-    "v6":bool,"queries":[{"kind":str,"pid":null|n}…]}
+   {"op":"world","socks":[…],
+    "procs":[[pid, null | {"err":errno} | [[fd, {"s":inode} | {"o":hex} | {"e":errno} | null]…]]…],
+    "v6":bool,"ntop6":bool?,"supv6":bool?,"queries":[{"kind":str,"pid":null|n}…]}
+       errno = "ENOENT"|"ESRCH"|"EINVAL"|"ENAMETOOLONG"|"EACCES"|"EPERM"| number;
+       ntop6 = inet_ntop(AF_INET6) raises ValueError, supv6 = supports_ipv6()
        → {"files":{name: hex|null}, "results":[{"model":…, "spec":…, "accepts":bool}…]}
      the world is rendered by the Lean kernel-side renderers (Spec), the model reads that.
    {"op":"raw","files":{name: hex|null},"procs":[[pid, null | [[fd, hex|null]…]]…],"queries":[…]}
@@ -19,6 +22,12 @@ def excName : Exc → String
   | .indexError => "IndexError"
   | .structError => "error"
   | .fileNotFound => "FileNotFoundError"
+  | .ipv6Unsupported => "_Ipv6UnsupportedError"
+  | .processLookup => "ProcessLookupError"
+  | .permissionError => "PermissionError"
+  | .osError _ => "OSError"
+  | .accessDenied => "AccessDenied"
+  | .noSuchProcess => "NoSuchProcess"
 
 def jAddr : Addr → Json
   | .empty => Json.null
@@ -61,52 +70,101 @@ def parseSock (j : Json) : R Spec.Sock := do
            rxq := ← natF j "rxq", uid := ← natF j "uid", refcnt := ← natF j "refcnt",
            flags := ← natF j "flags" }
 
-def parseTarget (j : Json) : R Spec.Target :=
-  if j.isNull then .ok .gone
-  else match j.getObjVal? "s" with
-    | .ok v => (asNat v).map .sock
-    | .error _ => (bytesF j "o").map .other
-
 def parsePair {α β : Type} (f : Json → R α) (g : Json → R β) (j : Json) : R (α × β) :=
   match j.getArr? with
   | .ok #[a, b] => do return (← f a, ← g b)
   | _ => .error s!"not a pair: {j.compress}"
+
+def parseErrno (j : Json) : R Errno :=
+  match j.getStr? with
+  | .ok "ENOENT" => .ok .enoent
+  | .ok "ESRCH" => .ok .esrch
+  | .ok "EINVAL" => .ok .einval
+  | .ok "ENAMETOOLONG" => .ok .enametoolong
+  | .ok "EACCES" => .ok .eacces
+  | .ok "EPERM" => .ok .eperm
+  | .ok s => .error s!"unknown errno {s}"
+  | .error _ => (asNat j).map .other
+
+/-- `null` = not a link (a regular file in the fake tree: a real EINVAL) -/
+def parseTarget (j : Json) : R Spec.TargetE :=
+  if j.isNull then .ok (.fail .einval)
+  else match j.getObjVal? "s" with
+    | .ok v => (asNat v).map .sock
+    | .error _ =>
+      match j.getObjVal? "e" with
+      | .ok v => (parseErrno v).map .fail
+      | .error _ => (bytesF j "o").map .other
+
+/-- `null` = no `fd` directory (a real ENOENT); `{"err": errno}` = listdir fails; else the entries -/
+def parseListing {α : Type} (f : Json → R α) (j : Json) : R (Except Errno (List (Nat × α))) :=
+  if j.isNull then .ok (.error .enoent)
+  else match j.getObjVal? "err" with
+    | .ok v => (parseErrno v).map .error
+    | .error _ => (asList (parsePair asNat f) j).map .ok
+
+def parseLinkRaw (j : Json) : R LinkRes :=
+  if j.isNull then .ok (.err .einval)
+  else match j.getObjVal? "e" with
+    | .ok v => (parseErrno v).map .err
+    | .error _ => (asBytes j).map .ok
 
 def parseQuery (j : Json) : R Spec.Query := do
   return { kind := ← strF j "kind", pid := ← optF asNat j "pid" }
 
 def netNames : List String := ["tcp", "tcp6", "udp", "udp6", "unix"]
 
-def run1 (fs : ProcFs) (q : Spec.Query) : Except Exc (List Row) :=
-  netConnections cfg fs q.kind q.pid
+def run1 (c : Cfg) (fs : ProcFsE) (q : Spec.Query) : Except Exc (List Row) :=
+  netConnectionsE c fs q.kind q.pid
+
+def optBool (j : Json) (k : String) (dflt : Bool) : R Bool :=
+  match j.getObjVal? k with
+  | .ok v => asBool v
+  | .error _ => .ok dflt
+
+/-- does the specification speak about this query in this world? -/
+def specified (w : Spec.WorldE) (ntop6 supv6 : Bool) (q : Spec.Query) : Bool :=
+  (!(ntop6 && supv6)) &&
+  (match q.pid with
+   | none => w.inspectable
+   | some p => Spec.ownClean w p)
 
 def handle (_ : Unit) (j : Json) : R (Unit × Json) := do
   let op ← strF j "op"
   let qs ← listF parseQuery j "queries"
+  let ntop6 ← optBool j "ntop6" false
+  let supv6 ← optBool j "supv6" true
+  let c : Cfg := { cfg with ntop6Fails := ntop6, supportsV6 := supv6 }
   if op == "world" then
     let socks ← listF parseSock j "socks"
-    let procs ← listF (parsePair asNat (asOpt (asList (parsePair asNat parseTarget)))) j "procs"
+    let procs ← listF (parsePair asNat (parseListing parseTarget)) j "procs"
     let v6 ← boolF j "v6"
-    let w : Spec.World := { socks := socks, procs := procs, v6 := v6 }
-    let fs := Spec.renderWorld cfg.littleEndian w
+    let w : Spec.WorldE := { socks := socks, procs := procs, v6 := v6 }
+    let fs := Spec.renderWorldE cfg.littleEndian w
     let files := jObj (netNames.map fun n => (n, jOpt jBytes (fs.net n)))
+    -- what the promise is about: the inspectable part of the world; without IPv6 text support,
+    -- minus the sockets whose row needs one
+    let wv : Spec.World := if ntop6 then w.view.dropV6 else w.view
     let results := qs.map fun q =>
-      let m := run1 fs q
-      let p := Spec.promise w q
-      let acc : Bool := match m, p with
-        | .ok rows, .rows es => Spec.accepts es rows
-        | .error .valueError, .valueError => true
-        | _, _ => false
-      jObj [("model", jModel q.pid m), ("spec", jPromise q p), ("accepts", Json.bool acc)]
+      let m := run1 c fs q
+      if specified w ntop6 supv6 q then
+        let p := Spec.promise wv q
+        let acc : Bool := match m, p with
+          | .ok rows, .rows es => Spec.accepts es rows
+          | .error .valueError, .valueError => true
+          | _, _ => false
+        jObj [("model", jModel q.pid m), ("spec", jPromise q p), ("accepts", Json.bool acc)]
+      else
+        jObj [("model", jModel q.pid m), ("spec", jObj [("kind", "unspecified")]), ("accepts", Json.bool true)]
     return ((), jObj [("files", files), ("results", Json.arr results.toArray)])
   else if op == "raw" then
     let fj ← field j "files"
     let files ← netNames.mapM fun n => do
       let v ← optF asBytes fj n
       pure (n, v)
-    let procs ← listF (parsePair asNat (asOpt (asList (parsePair asNat (asOpt asBytes))))) j "procs"
-    let fs : ProcFs := { net := fun n => (files.lookup n).join, procs := procs }
-    let results := qs.map fun q => jObj [("model", jModel q.pid (run1 fs q))]
+    let procs ← listF (parsePair asNat (parseListing parseLinkRaw)) j "procs"
+    let fs : ProcFsE := { net := fun n => (files.lookup n).join, procs := procs }
+    let results := qs.map fun q => jObj [("model", jModel q.pid (run1 c fs q))]
     return ((), jObj [("results", Json.arr results.toArray)])
   else .error s!"unknown op {op}"
 
